@@ -12,6 +12,7 @@ from vlib.pkgread import pkg_nets, check_package
 
 SIGN = ["s", "k", "m0:kk", "m0:l0:m", "lx:m", "m0:g", "m1:kk", "x0:m0:kk"]      # candidate designer signal names
 INSTN = ["lx", "m0:l0", "m0:l0:r0", "m1:rm", "m0:lq", "q"]
+PORTN = ["pa", "m0:kk", "pa", "m1:l0:m", "pa", "m0:h", "pa", "pa"]                 # name of the top's bus port (by index of SIGN)
 LEAFN = ["rt", "m0:rm", "rt", "m1:l2:r1", "rt", "m0:z:ra"]                         # names of a leaf placed directly in the top (by index of INSTN)                           # candidate designer instance names
 
 
@@ -35,9 +36,10 @@ def design(w, share, ext, deep, sn, inn, imid):
         Inst("l0", leaf, {"a": Sig("a"), "g": Sig("g")}),
         Inst(INSTN[imid] if imid >= 0 else "l1", leaf2, {"a": Sig("kk"), "g": Sig("h")}),
         Inst("l2", leaf, {"a": Sig("kk"), "g": Sig("g")})])
-    top = Mod("Top", ports=[("t", 1), ("pa", w)], sigs=[(SIGN[sn], w), ("g2", 1)], insts=[
+    pa = PORTN[sn]  # (a port of the top may carry the ':'-joined name of a net hoisted from below)
+    top = Mod("Top", ports=[("t", 1), (pa, w)], sigs=[(SIGN[sn], w), ("g2", 1)], insts=[
         Inst("m0", mid, {"a": Sig(SIGN[sn]), "g": Sig("t"), "m": Sig("g2"), "p": Sig("t")}),
-        Inst("m1", mid, {"a": Sig("pa"), "g": Sig("g2"), "m": Sig("t"), "p": Sig("g2")}),
+        Inst("m1", mid, {"a": Sig(pa), "g": Sig("g2"), "m": Sig("t"), "p": Sig("g2")}),
         Inst(INSTN[inn], leaf2, {"a": Sig(SIGN[sn]), "g": Sig("g2")}),
         Inst("z0", cell0, {}), Inst("z1", cell0, {}),
         # a LEAF of the top itself, declared after the hierarchy, possibly named like the ':'-joined path of a nested leaf
@@ -45,7 +47,7 @@ def design(w, share, ext, deep, sn, inn, imid):
     if deep:
         top.name = "Upper"
         top = Mod("Top", ports=[("t", 1), ("u", 1), ("pb", w)], insts=[
-            Inst("x0", top, {"t": Sig("t"), "pa": Sig("pb")}), Inst("x1", top, {"t": Sig("u"), "pa": Sig("pb")})])
+            Inst("x0", top, {"t": Sig("t"), pa: Sig("pb")}), Inst("x1", top, {"t": Sig("u"), pa: Sig("pb")})])
     return top
 
 
